@@ -124,6 +124,15 @@ def pcap_render(messages, rng, link=None):
     w = dpkt.pcapng.Writer(f, linktype=linktype)
     carried = bytearray()
     ts = 1650741887.0
+    # the order of a capture is the order of its packets in the file, whatever their time stamps say: increasing, all
+    # equal, coarse (ties), decreasing
+    clock = rng.choice(("increasing", "constant", "coarse", "decreasing"))
+    stamps = {"n": 0}
+
+    def stamp():
+        stamps["n"] += 1
+        n = stamps["n"]
+        return {"increasing": ts + 0.001 * n, "constant": ts, "coarse": ts + (n // 3), "decreasing": ts - 0.5 * n}[clock]
 
     def packet(payload):
         tcp = dpkt.tcp.TCP(sport=2321, dport=50000, seq=rng.randrange(1 << 32), ack=1, flags=dpkt.tcp.TH_ACK | (dpkt.tcp.TH_PUSH if payload else 0), data=payload)
@@ -136,17 +145,14 @@ def pcap_render(messages, rng, link=None):
     for k, m in enumerate(messages):
         r = rng.random()
         if r < 0.2:
-            w.writepkt(packet(b""), ts)  # empty ACK
-            ts += 0.001
+            w.writepkt(packet(b""), stamp())  # empty ACK
         if r > 0.85:
             runt = bytes(rng.randrange(256) for _ in range(rng.randint(1, 9)))  # e.g. mssim platform command
-            w.writepkt(packet(runt), ts)
-            ts += 0.001
+            w.writepkt(packet(runt), stamp())
         payload = m
         if k % 2 == 1 and rng.random() < 0.4:
             payload = m + b"\x00\x00\x00\x00"  # mssim trailer on responses
-        w.writepkt(packet(payload), ts)
-        ts += 0.001
+        w.writepkt(packet(payload), stamp())
         carried += m
     return f.getvalue(), bytes(carried)
 
